@@ -26,13 +26,13 @@
 (*                                                                                                             *)
 (* GRANULARITY: one action per step between synchronisation points of the code.                                *)
 (*   GetInstance/getCacheResult:  Target(c,k)        resolver.Target callback                                   *)
-(*                                Hit(c) / Miss(c)   b.cache.Load(target)                                       *)
+(*                                Hit(c)             b.cache.Load(target) hits; expire = 0; res.Load()          *)
+(*                                Miss(c)            b.cache.Load(target) misses                                *)
 (*                                Lead(c) / Follow(c) b.sfg.Do(target, ..): leader calls Resolve, others wait   *)
-(*                                LeadEnd(c,n|err)   resolver.Resolve returns                                   *)
-(*                                LeadRebalance(c)   cache.res.Store; expire=0; balancer.Rebalance(res)         *)
-(*                                LeadPublish(c)     b.cache.Store(target, cache); the flight ends (followers   *)
-(*                                                   receive the entry); LeadFail(c): flight ends with error    *)
-(*                                Use(c)             atomic.StoreInt32(&expire,0); cacheRes.res.Load()          *)
+(*                                LeadEndOk(c,n)     resolver.Resolve returns a result                          *)
+(*                                LeadEndErr(c)      .. or an error: the flight ends, everybody gets the error  *)
+(*                                LeadRebalance(c)   res.Store; expire=0; balancer.Rebalance(res);              *)
+(*                                                   b.cache.Store(target, cache); the flight ends              *)
 (*                                Pick(c,x)          balancer.Pick(result) (weightedBalancer: cached weight     *)
 (*                                                   info for the CacheKey, computed from the argument if none) *)
 (*                                Return(c)                                                                     *)
@@ -103,11 +103,15 @@ Target(c, k) ==
     /\ Obs([ev |-> "Target", p |-> c, k |-> k])
     /\ UNCHANGED <<nres, ver, cache, ent, bal, flight>> /\ KeepBg
 
-\* b.cache.Load(target): hit
+\* b.cache.Load(target) hits; atomic.StoreInt32(&cacheRes.expire, 0); cacheRes.res.Load()
+\* (three atomic operations of the code taken as one step: a Delete between them only makes the flag store land
+\* on an unreachable entry; the Delete-between-load-and-Pick interleaving is kept, see Pick)
 Hit(c) ==
     /\ At(c, "target") /\ cache[pc[c].k] # 0
-    /\ pc' = [pc EXCEPT ![c].at = "hit", ![c].e = cache[pc[c].k]]
-    /\ Silent /\ UNCHANGED <<nres, ver, cache, ent, bal, flight, left>> /\ KeepBg
+    /\ LET e == cache[pc[c].k] IN
+       /\ ent' = [ent EXCEPT ![e].flag = 0, ![e].used = TRUE]
+       /\ pc' = [pc EXCEPT ![c].at = "pick", ![c].e = e, ![c].v = ent[e].res]
+    /\ Silent /\ UNCHANGED <<nres, ver, cache, bal, flight, left>> /\ KeepBg
 
 \* b.cache.Load(target): miss
 Miss(c) ==
@@ -135,46 +139,31 @@ LeadEndOk(c, n) ==
     /\ Obs([ev |-> "ResolveEnd", p |-> c, k |-> pc[c].k, v |-> nres + 1, n |-> n])
     /\ UNCHANGED <<cache, ent, bal, flight, left>> /\ KeepBg
 
+\* Resolve fails: sfg.Do returns the error to the leader and to every follower; nothing is stored
 LeadEndErr(c) ==
     /\ At(c, "resolve") /\ CanFail
-    /\ pc' = [pc EXCEPT ![c].at = "failed"]
-    /\ Obs([ev |-> "ResolveEnd", p |-> c, k |-> pc[c].k, v |-> 0, n |-> 0])
-    /\ UNCHANGED <<nres, ver, cache, ent, bal, flight, left>> /\ KeepBg
-
-\* cache.res.Store(res); expire = 0; b.balancer.Rebalance(res)    (the new cacheResult is not published yet)
-LeadRebalance(c) ==
-    /\ At(c, "resolved")
-    /\ ent' = Append(ent, [k |-> pc[c].k, res |-> pc[c].v, flag |-> 0, used |-> TRUE])
-    /\ bal' = [bal EXCEPT ![pc[c].k] = pc[c].v]
-    /\ pc' = [pc EXCEPT ![c].at = "rebalanced", ![c].e = Len(ent) + 1]
-    /\ Obs([ev |-> "Rebalance", p |-> c, k |-> pc[c].k, v |-> pc[c].v])
-    /\ UNCHANGED <<nres, ver, cache, flight, left>> /\ KeepBg
-
-\* b.cache.Store(target, cache); sfg.Do returns: leader and followers continue with the entry
-LeadPublish(c) ==
-    /\ At(c, "rebalanced")
-    /\ cache' = [cache EXCEPT ![pc[c].k] = pc[c].e]
-    /\ flight' = [flight EXCEPT ![pc[c].k] = NoFlight]
-    /\ pc' = [d \in Callers |->
-                IF d = c \/ (pc[d].at = "follow" /\ pc[d].k = pc[c].k)
-                THEN [pc[d] EXCEPT !.at = "hit", !.e = pc[c].e] ELSE pc[d]]
-    /\ Silent /\ UNCHANGED <<nres, ver, ent, bal, left>> /\ KeepBg
-
-\* sfg.Do returns the error to the leader and to every follower; nothing was stored
-LeadFail(c) ==
-    /\ At(c, "failed")
     /\ flight' = [flight EXCEPT ![pc[c].k] = NoFlight]
     /\ pc' = [d \in Callers |->
                 IF d = c \/ (pc[d].at = "follow" /\ pc[d].k = pc[c].k)
                 THEN [pc[d] EXCEPT !.at = "error"] ELSE pc[d]]
-    /\ Silent /\ UNCHANGED <<nres, ver, cache, ent, bal, left>> /\ KeepBg
+    /\ Obs([ev |-> "ResolveEnd", p |-> c, k |-> pc[c].k, v |-> 0, n |-> 0])
+    /\ UNCHANGED <<nres, ver, cache, ent, bal, left>> /\ KeepBg
 
-\* atomic.StoreInt32(&cacheRes.expire, 0); cacheRes.res.Load()
-Use(c) ==
-    /\ At(c, "hit")
-    /\ ent' = [ent EXCEPT ![pc[c].e].flag = 0, ![pc[c].e].used = TRUE]
-    /\ pc' = [pc EXCEPT ![c].at = "pick", ![c].v = ent[pc[c].e].res]
-    /\ Silent /\ UNCHANGED <<nres, ver, cache, bal, flight, left>> /\ KeepBg
+\* cache.res.Store(res); expire = 0; b.balancer.Rebalance(res); b.cache.Store(target, cache); sfg.Do returns:
+\* leader and followers continue with the new entry, having (re)set its flag and loaded its result
+\* (Rebalance, Store and the end of the flight are one step here: nothing can reach the entry before Store, and a
+\* caller that misses between Rebalance and Store simply joins the flight as it could before Rebalance)
+LeadRebalance(c) ==
+    /\ At(c, "resolved")
+    /\ ent' = Append(ent, [k |-> pc[c].k, res |-> pc[c].v, flag |-> 0, used |-> TRUE])
+    /\ bal' = [bal EXCEPT ![pc[c].k] = pc[c].v]
+    /\ cache' = [cache EXCEPT ![pc[c].k] = Len(ent) + 1]
+    /\ flight' = [flight EXCEPT ![pc[c].k] = NoFlight]
+    /\ pc' = [d \in Callers |->
+                IF d = c \/ (pc[d].at = "follow" /\ pc[d].k = pc[c].k)
+                THEN [pc[d] EXCEPT !.at = "pick", !.e = Len(ent) + 1, !.v = pc[c].v] ELSE pc[d]]
+    /\ Obs([ev |-> "Rebalance", p |-> c, k |-> pc[c].k, v |-> pc[c].v])
+    /\ UNCHANGED <<nres, ver, left>> /\ KeepBg
 
 \* weightedBalancer.Pick(e): weight info cached under e.CacheKey, else computed from e and cached
 PickFrom(c) == IF bal[pc[c].k] # 0 THEN bal[pc[c].k] ELSE pc[c].v
@@ -196,8 +185,7 @@ Return(c) ==
 CallerStep(c) == \/ \E k \in Keys : Target(c, k)
                  \/ Hit(c) \/ Miss(c) \/ Lead(c) \/ Follow(c)
                  \/ \E n \in Counts : LeadEndOk(c, n)
-                 \/ LeadEndErr(c) \/ LeadRebalance(c) \/ LeadPublish(c) \/ LeadFail(c)
-                 \/ Use(c)
+                 \/ LeadEndErr(c) \/ LeadRebalance(c)
                  \/ (At(c, "pick") /\ \E x \in Ins(PickFrom(c)) \cup {NoInst} : Pick(c, x))
                  \/ Return(c)
 
@@ -283,14 +271,13 @@ LiveSpec == Spec /\ WF_vars(WatcherStep) /\ \A c \in Callers : WF_vars(CallerSte
 --------------------------------------------------------------------------------------------------------------
 (* The property *)
 
-Ats == {"idle", "target", "hit", "miss", "resolve", "resolved", "failed", "rebalanced", "follow", "pick",
-        "picked", "error"}
+Ats == {"idle", "target", "miss", "resolve", "resolved", "follow", "pick", "picked", "error"}
 TypeOK == /\ nres = Len(ver) /\ nres <= MaxRes
           /\ \A k \in Keys : cache[k] \in 0 .. Len(ent) /\ bal[k] \in 0 .. nres
           /\ \A c \in Callers : pc[c].at \in Ats /\ pc[c].e \in 0 .. Len(ent) /\ pc[c].v \in 0 .. nres
           /\ rf.at \in {"wait", "resolve", "resolved", "stored"}
 
-Resolving(k) == {c \in Callers : pc[c].k = k /\ pc[c].at \in {"resolve", "resolved", "failed", "rebalanced"}}
+Resolving(k) == {c \in Callers : pc[c].k = k /\ pc[c].at \in {"resolve", "resolved"}}
 
 \* (2)
 SingleFlight == \A k \in Keys : /\ Cardinality(Resolving(k)) <= 1
@@ -321,11 +308,11 @@ DeleteTwoPhase ==
           /\ ent[cache[k]].flag = 1 /\ ~ent[cache[k]].used
           /\ bal'[k] = 0 /\ out'.ev = "Delete" /\ out'.k = k]_vars
 
-\* an entry is published only by a leader, after Rebalance, holding the result just resolved
+\* an entry is published only by a leader, together with Rebalance, holding the result just resolved
 PublishAfterRebalance ==
     [][\A k \in Keys : (cache'[k] # cache[k] /\ cache'[k] # 0) =>
-          \E c \in Callers : /\ pc[c].at = "rebalanced" /\ pc[c].k = k /\ cache'[k] = pc[c].e
-                             /\ ent[pc[c].e].res = pc[c].v]_vars
+          \E c \in Callers : /\ pc[c].at = "resolved" /\ pc[c].k = k /\ out'.ev = "Rebalance" /\ out'.p = c
+                             /\ ent'[cache'[k]].res = pc[c].v /\ bal'[k] = pc[c].v]_vars
 
 \* (4) a failed Resolve -- periodic or first -- changes neither cache, entries nor balancer
 FailKeeps == [][(out'.ev = "ResolveEnd" /\ out'.v = 0) => UNCHANGED <<cache, ent, bal>>]_vars
@@ -346,4 +333,5 @@ CallsOver == \A c \in Callers : pc[c].at = "idle" /\ left[c] = 0
 IdleExpires == CallsOver ~> (\A k \in Keys : cache[k] = 0)
 
 Symm == Permutations(Callers)
+View == <<nres, ver, cache, ent, bal, flight, pc, left, rf, wt, wticks, rticks>>
 =============================================================================
